@@ -24,7 +24,9 @@ git apply $sd/patch.diff || { echo "SEED $tag: patch does not apply"; exit 3; }
 fi
 vc=/tmp/vc_$(basename $wt)
 mkdir -p $vc
-rsync -a --delete --exclude work --exclude harness/target --exclude .git /verif/ $vc/
+# the committed state of /verif (not the working tree, which may be mid-edit)
+snap=$(mktemp -d /tmp/vsnap.XXXXXX); git -C /verif archive HEAD | tar -x -C $snap
+rsync -a --delete --exclude work --exclude harness/target $snap/ $vc/; rm -rf $snap
 sed -i "s#path = \"/repo\"#path = \"$wt\"#" $vc/harness/Cargo.toml
 for p in "$@"; do
   cd $vc && timeout 3000 ./check $p --tier ${SEED_TIER:-quick} > $res/${tag}_check_$p.log 2>&1; rc=$?
